@@ -212,28 +212,19 @@ func newSut(w *world, nodes []int64) *sut {
 	return &sut{w: w, indexer: ix, hni: api.NewHyperNodesInfo(listerv1.NewNodeLister(ix))}
 }
 
-// cache.triggerUpdateHyperNode (event_handlers.go:809-840), iterating the leaf
-// set in ascending name order instead of Go map order
-func (s *sut) trigger(node string) {
-	leaves := s.hni.GetRegexOrLabelMatchLeafHyperNodes()
-	ids := []int64{}
-	for l := range leaves {
-		ids = append(ids, hnID(l))
+// Node events go through the real cache handler: SchedulerCache.SyncHyperNode("node/<name>")
+// -> triggerUpdateHyperNode, running on this view.  The handler visits the HyperNodes in Go
+// map order and stops at the first error, so a history in which it fails is compared by the
+// laws only (flags.amb).
+var theCache *cache.SchedulerCache
+
+func (s *sut) trigger(node string) error {
+	if theCache == nil {
+		theCache = cache.NewCustomMockSchedulerCache("verif-scheduler", util.NewFakeBinder(0), util.NewFakeEvictor(0),
+			&util.FakeStatusUpdater{}, nil, nil)
 	}
-	sort.Slice(ids, func(i, j int) bool { return ids[i] < ids[j] })
-	for _, id := range ids {
-		hn := s.hni.HyperNode(hnName(id))
-		if hn == nil {
-			continue
-		}
-		match, err := s.hni.NodeRegexOrLabelMatchLeafHyperNode(node, hn.Name)
-		if err != nil || !match {
-			continue
-		}
-		if err := s.hni.UpdateHyperNode(hn); err != nil {
-			return
-		}
-	}
+	theCache.HyperNodesInfo = s.hni
+	return theCache.SyncHyperNode("node/" + node)
 }
 
 func (s *sut) apply(ev event) (err error) {
@@ -244,10 +235,10 @@ func (s *sut) apply(ev event) (err error) {
 		err = s.hni.DeleteHyperNode(hnName(ev.id))
 	case 2:
 		s.indexer.Add(s.w.k8sNode(ev.id))
-		s.trigger(nodeName(ev.id))
+		err = s.trigger(nodeName(ev.id))
 	case 3:
 		s.indexer.Delete(s.w.k8sNode(ev.id))
-		s.trigger(nodeName(ev.id))
+		err = s.trigger(nodeName(ev.id))
 	}
 	return err
 }
@@ -421,9 +412,9 @@ type flags struct {
 	tierInversion  bool // D7: at some point a stored HyperNode claimed a member whose tier is not below its own
 }
 
-// selStale: node event for n, and some stored HyperNode has a selector member
-// matching n that cache.triggerUpdateHyperNode does not refresh: the HyperNode
-// is not a leaf, or (on deletion) only label selectors of it match n
+// selStale (finding D2): node event for n, and some stored HyperNode that has BOTH HyperNode
+// members and regex/label node members selects n: triggerUpdateHyperNode only refreshes
+// HyperNodes without HyperNode members (GetRegexOrLabelMatchLeafHyperNodes)
 func (s *sut) selStale(n int64, deletion bool) bool {
 	inSel := func(id int64) bool {
 		for _, x := range s.w.sel[id] {
@@ -437,21 +428,21 @@ func (s *sut) selStale(n int64, deletion bool) bool {
 		if info.HyperNode == nil {
 			continue
 		}
-		leaf, regexHit, labelHit := true, false, false
+		leaf, hit := true, false
 		for _, m := range info.HyperNode.Spec.Members {
 			switch {
 			case m.Type == topologyv1alpha1.MemberTypeHyperNode:
 				leaf = false
 			case m.Selector.RegexMatch != nil:
-				regexHit = regexHit || inSel(selOfPattern(m.Selector.RegexMatch.Pattern))
+				hit = hit || inSel(selOfPattern(m.Selector.RegexMatch.Pattern))
 			case m.Selector.LabelMatch != nil:
 				for k := range m.Selector.LabelMatch.MatchLabels {
 					id, _ := strconv.ParseInt(k[3:], 10, 64)
-					labelHit = labelHit || inSel(id)
+					hit = hit || inSel(id)
 				}
 			}
 		}
-		if (regexHit || labelHit) && (!leaf || (deletion && !regexHit)) {
+		if hit && !leaf {
 			return true
 		}
 	}
@@ -490,8 +481,13 @@ func runHistory(w *world, evs []event, obs func(i int, s *sut)) (s *sut, fl flag
 		if ev.kind == 1 && s.claimedBySomeone(ev.id) {
 			fl.deletedClaimed = true
 		}
-		if err := s.apply(ev); err != nil && ev.kind == 1 {
-			fl.failedDelete = true
+		if err := s.apply(ev); err != nil {
+			if ev.kind == 1 {
+				fl.failedDelete = true
+			}
+			if ev.kind == 2 || ev.kind == 3 {
+				fl.amb = true
+			}
 		}
 		after := s.hni.HyperNodes()
 		if claimedTwice(after) {
@@ -781,14 +777,13 @@ func laws(sel int, in, got []int64, law func(lsel int, lin []int64, sig string))
 		}
 		// Signatures of the documented findings (docs/notes/C14.md).  A signature is attached
 		// only to the law the finding explains; 111/112 re-check everything D2 does not touch.
-		const d2 = "C14-D2-selector-members-stale-after-node-event"
-		const d5 = "C14-D5-double-claim-undetected-after-child-delete"
+		const d2 = "C14-D2-selector-members-of-non-leaf-hypernode-stale-after-node-event"
 		const d7 = "C14-D7-bad-membership-invisible-under-tier-inversion"
 		const d9 = "C14-D9-release-resets-parent-pointer-of-member-adopted-by-another"
 		pick := func(f flags, order ...string) string {
 			for _, sg := range order {
 				switch {
-				case sg == d2 && f.selStale, sg == d5 && f.deletedClaimed, sg == d7 && f.tierInversion, sg == d9 && f.foreignReset:
+				case sg == d2 && f.selStale, sg == d7 && f.tierInversion, sg == d9 && f.foreignReset:
 					return sg
 				}
 			}
@@ -801,9 +796,9 @@ func laws(sel int, in, got []int64, law func(lsel int, lin []int64, sig string))
 		law(102, cat(eo, incr, fresh), pick(both, d2, d7, d9))
 		law(112, cat(eo, incr, fresh), pick(both, d7, d9))
 		law(105, cat(eo, incr), pick(fl, d7))
-		law(106, cat(eo, incr), pick(fl, d7, d5))
+		law(106, cat(eo, incr), pick(fl, d7))
 		law(101, cat(encEnv(w, nodes), eo, fresh), pick(ffl, d2, d7, d9))
-		law(106, cat(eo, fresh), pick(ffl, d7, d5))
+		law(106, cat(eo, fresh), pick(ffl, d7))
 	case 3:
 		traceLaws(law)
 	case 2:
